@@ -86,7 +86,7 @@ inductive Outcome (α : Type)
   | usage                          -- SystemExit(2) with a usage message
   | internalError (tag : String)   -- a traceback
   | unmodelled (tag : String)
-deriving Repr
+deriving Repr, DecidableEq
 
 /-- `argparse._get_value`: `ArgumentTypeError` → error message; `TypeError`/`ValueError` →
 "invalid … value"; everything else propagates. -/
@@ -336,6 +336,39 @@ def parseSubnetport (env : Env) (s : Str) : Except Exc (List Subnet) :=
 /-- `parse_subnetport` before the repair -/
 def parseSubnetportOrig (env : Env) (s : Str) : Except Exc (List Subnet) :=
   parseSubnetportWith matchRx6Orig env s
+
+/-! ## parse_subnetport_file (behind `-s` / `-X`) -/
+
+/-- the white space `str.strip()` removes, as far as the model goes: the ASCII ones
+(CPython also strips `\x1c`–`\x1f`, `\x85`, `\xa0` and the Unicode spaces; files with those are
+outside the model) -/
+def isAsciiSpace (c : Char) : Bool :=
+  c = ' ' || c = '\t' || c = '\n' || c = '\r' || c.toNat = 11 || c.toNat = 12
+
+/-- `line.strip()` -/
+def strip (s : Str) : Str := ((s.dropWhile isAsciiSpace).reverse.dropWhile isAsciiSpace).reverse
+
+/-- the loop of `parse_subnetport_file` over the lines of the file: blank lines and `#`
+comments are skipped, every other line is handed to `parse_subnetport` and contributes its own
+list; the first exception ends the loop -/
+def fileLoop (env : Env) : List Str → Except Exc (List (List Subnet))
+  | [] => .ok []
+  | l :: rest =>
+    if (strip l).isEmpty then fileLoop env rest
+    else if (strip l).head? = some '#' then fileLoop env rest
+    else
+      match parseSubnetport env (strip l) with
+      | .error e => .error e
+      | .ok v =>
+        match fileLoop env rest with
+        | .error e => .error e
+        | .ok tl => .ok (v :: tl)
+
+/-- `parse_subnetport_file` on the text of a readable file whose lines end in `\n`
+(`readlines()`; a final piece without text is a blank line either way). An unreadable file is
+`Fatal('Unable to open subnet file')`, not modelled further. -/
+def parseSubnetportFile (env : Env) (content : Str) : Except Exc (List (List Subnet)) :=
+  fileLoop env (splitOn '\n' content)
 
 /-! ## parse_ipport -/
 
@@ -698,6 +731,12 @@ def combineArgs {α : Type} (envArgs argv : List α) : List α :=
 def storeFold (dest : String) (cur : Option Str) : List (String × Str) → Option Str
   | [] => cur
   | (o, v) :: rest => storeFold dest (if o = dest then some v else cur) rest
+
+/-- `--listen` end to end: the `store` action over environment + command-line occurrences, then
+`cmdline.main`'s loop over the stored text (`none` = option never given: automatic listeners). -/
+def listenAfterMerge (env : Env) (envArgs argv : List (String × Str)) :
+    Option (Outcome (Option (Str × Nat) × Option (Str × Nat))) :=
+  (storeFold "--listen" none (combineArgs envArgs argv)).map (parseListen env)
 
 /-- value of a `store` option after parsing the combined argument list
 (`none` = never given, the default stays). -/
